@@ -168,6 +168,16 @@ func fromBase64(s []byte) (buf []byte, err error) {
 
 func toBase64(b []byte) string { return base64.StdEncoding.EncodeToString(b) }
 
+// base64DecodedLen returns the number of octets the base64 text s is packed to.
+// base64.StdEncoding.DecodedLen counts the padding characters as if they were data.
+func base64DecodedLen(s string) int {
+	l := base64.StdEncoding.DecodedLen(len(s))
+	for i := len(s); i > 0 && l > 0 && s[i-1] == '='; i-- {
+		l--
+	}
+	return l
+}
+
 // dynamicUpdate returns true if the Rdlength is zero.
 func noRdata(h RR_Header) bool { return h.Rdlength == 0 }
 
@@ -524,6 +534,10 @@ func unpackDataNsec(msg []byte, off int) ([]uint16, int, error) {
 // typeBitMapLen is a helper function which computes the "maximum" length of
 // a the NSEC Type BitMap field.
 func typeBitMapLen(bitmap []uint16) int {
+	if len(bitmap) == 0 {
+		// packDataNsec writes nothing at all, not an empty window block.
+		return 0
+	}
 	var l int
 	var lastwindow, lastlength uint16
 	for _, t := range bitmap {
